@@ -339,6 +339,19 @@ func c01Reps(sigma []rdbgen.Item) []int {
 	return out
 }
 
+// c01Pieces delivers its input in reads of at most max bytes.
+type c01Pieces struct {
+	r   io.Reader
+	max int
+}
+
+func (p *c01Pieces) Read(b []byte) (int, error) {
+	if len(b) > p.max {
+		b = b[:p.max]
+	}
+	return p.r.Read(b)
+}
+
 // c01Big builds a hash whose pairs have the given value sizes (MiB; 0 = tiny, -1 = sized so
 // that the payload ends exactly on the 16 MiB limit after the first pair) and checks the
 // chunk records.
@@ -374,7 +387,13 @@ func c01Big(exp int, sizes []int) string {
 		ev.Violate("C01|big-"+kind, fmt.Sprintf("%s (hash with pair sizes %v MiB, expiry=%d)", what, sizes, exp), c)
 		return kind
 	}
-	l := NewLoader(bytes.NewReader(file))
+	// the input arrives as a socket or a pipe delivers it: no read returns more than 1 MiB - 3
+	// bytes (with an expiry: 64 KiB + 1), however much is asked for
+	var src io.Reader = &c01Pieces{r: bytes.NewReader(file), max: 1<<20 - 3}
+	if exp == 1 {
+		src = &c01Pieces{r: bytes.NewReader(file), max: 1<<16 + 1}
+	}
+	l := NewLoader(src)
 	if err := l.Header(); err != nil {
 		return fail("header", err.Error())
 	}
